@@ -17,6 +17,12 @@ CLAIMED["C01"] = ("wire",
     "DESIGN.md §4 C01",
     "Trusted: mock backend (protocol-v3 session state machine), scripted client codec. Interleavings inside pgcat's runtime are sampled (delays, worker_threads 1/2/4), not enumerated.")
 
+CLAIMED["C02"] = ("wire",
+    "fault-injection PBT: generated victim program x server state x exit point, probe client; oracle = mock backend's own session state at hand-over",
+    "Generated-input search over the product {session state created outside a transaction} x {server state at the exit point: idle, in/failed transaction, COPY IN open, COPY OUT unread, reply pending, unsynced batch} x {exit: finish, Terminate, socket drop at a boundary or after k bytes of a message, malformed Close/Describe/Bind/Parse, unknown statement, unknown message type, idle-in-transaction timeout, statement timeout}, with and without statement caching, against the real binary with pool_size=1; a probe client then uses the pool and the mock backend reports its own session state (transaction status, COPY, GUC table, role, prepared statements) at the first message of the new client; the probe must also read exactly its own rows.",
+    "DESIGN.md §4 C02, Appendix A.2",
+    "Trusted: mock backend session semantics (SET rolled back with the transaction, RESET ALL/DEALLOCATE ALL/RESET ROLE, FATAL on non-COPY message during COPY IN as PostgreSQL >= 14). 'Kicked by shutdown' exits are exercised under C17, checkout-failure kicks under C04.")
+
 NOT_YET = {}
 
 props = [json.loads(l) for l in open('/verif/properties.jsonl')]
